@@ -306,17 +306,20 @@ func (rn *c12Runner[V]) tryBytes(m c12Mutant, data []byte) {
 		r.Violate(key, fmt.Sprintf("stream saved as version %d, loaded as version %d after a %s mutant at offset %d (%s): error=%v, %d entries loaded", rn.shape.SavedVer, rn.shape.LoadVer, m.Kind, m.Off, where, lerr, len(sn.Map)), wit())
 		return
 	}
+	// "never invents keys, values or longer lifetimes" holds whether or not an error is returned: entries that
+	// were admitted before the damage was noticed must still be entries of the saved cache
+	sfx := ""
 	if lerr != nil {
-		return // entries loaded before an error was detected are not judged: the caller was told
+		sfx = "/although-an-error-was-returned"
 	}
 	for _, e := range sn.Map {
 		s, ok := rn.saved[e.Key]
 		if !ok {
-			r.Violate("loaded-invented-key/"+m.Kind, fmt.Sprintf("%s mutant at %d (%s): loaded key %v is not in the saved cache", m.Kind, m.Off, where, e.Key), wit())
+			r.Violate("loaded-invented-key/"+m.Kind+sfx, fmt.Sprintf("%s mutant at %d (%s), LoadCache returned %v: the cache holds key %v, which is not in the saved cache", m.Kind, m.Off, where, lerr, e.Key), wit())
 			return
 		}
 		if s.val != e.Value || s.cost != e.Weight {
-			r.Violate("loaded-wrong-value-or-cost/"+m.Kind, fmt.Sprintf("%s mutant at %d (%s): key %v loaded with value/cost %v/%d, saved %v/%d", m.Kind, m.Off, where, e.Key, short(e.Value), e.Weight, short(s.val), s.cost), wit())
+			r.Violate("loaded-wrong-value-or-cost/"+m.Kind+sfx, fmt.Sprintf("%s mutant at %d (%s), LoadCache returned %v: key %v loaded with value/cost %v/%d, saved %v/%d", m.Kind, m.Off, where, lerr, e.Key, short(e.Value), e.Weight, short(s.val), s.cost), wit())
 			return
 		}
 		d := int64(0)
@@ -328,7 +331,7 @@ func (rn *c12Runner[V]) tryBytes(m c12Mutant, data []byte) {
 			if where == "block-header-of-metadata-message" {
 				key = "loaded-longer-lifetime/damage-in-metadata-block-header"
 			}
-			r.Violate(key, fmt.Sprintf("%s mutant at %d (%s): key %v saved with deadline %d, loaded with %d (%.1f s later)", m.Kind, m.Off, where, e.Key, s.deadline, d, float64(d-s.deadline)/1e9), wit())
+			r.Violate(key+sfx, fmt.Sprintf("%s mutant at %d (%s), LoadCache returned %v: key %v saved with deadline %d, loaded with %d (%.1f s later)", m.Kind, m.Off, where, lerr, e.Key, s.deadline, d, float64(d-s.deadline)/1e9), wit())
 			return
 		}
 	}
@@ -558,7 +561,7 @@ func runC12(r *Run) {
 	}
 	r.Rule("case = one mutant (truncation / single-bit flip / byte substitution / 2-64 byte burst / duplicated, dropped or swapped gob message) of a stream written by the real SaveCache, loaded into a fresh cache by the real LoadCache and judged on error value and white-box contents. Non-trivial = a mutant the decoder accepted without error, or one that loaded entries before failing; distinct by (stream shape, mutation kind, position class)")
 	r.Assume("the unmodified stream loads without error and reproduces the saved entries (control case, also C11's business)",
-		"entries loaded before an error is returned are not judged for plain corruption (the caller is told), but they are judged under a version mismatch, where nothing may be loaded")
+		"entries admitted before an error is returned are judged like any others (never an invented key, value or longer lifetime); under a version mismatch nothing may be loaded at all")
 	small := []c12Shape{
 		{Name: "empty", Entries: 0},
 		{Name: "one-entry", Entries: 1, TTL: true},
